@@ -585,6 +585,32 @@ class Discharger:
         c = s.call
         body = s.body
         n = c.name
+        if n.endswith("<impl [T]>::windows") and len(c.args) > 1:
+            k = lib.const_len(strip(self.X.operand(body, c.args[1])))
+            if k is not None and k >= 1:
+                return True, "window size %d > 0" % k
+            iv = Intervals(body).at(c.args[1], s.bb)
+            if iv and iv[0] >= 1:
+                return True, "window size in %s" % (iv,)
+            return False, "windows(0) panics: the window size is not proved positive"
+        if n.endswith("<impl [T]>::split_at") and len(c.args) > 1:
+            # `if b.remaining() < len { return Err(..) }  let (v, rest) = b.split_at(len)`: mid <= len by the dominating test
+            recv = recv_root(body, c.args[0])
+            akey = lib.operand_key(body, c.args[1])
+            for r in body.calls:
+                if r.mname not in ("remaining", "len") or not r.args or recv_root(body, r.args[0]) != recv:
+                    continue
+                if not body.dominates(r.bb, s.bb) or r.bb == s.bb or self._consumer_between(body, recv, r.bb, s.bb):
+                    continue
+                rkey = lib.operand_key(body, {"k": "copy", "pl": r.dest})
+                for cnd, truth in lib.dominating_conditions(body, s.bb):
+                    if cnd.kind != "cmp":
+                        continue
+                    ka, kb = lib.operand_key(body, cnd.a), lib.operand_key(body, cnd.b)
+                    op = cnd.op if truth else {"Lt": "Ge", "Le": "Gt", "Gt": "Le", "Ge": "Lt", "Eq": "Ne", "Ne": "Eq"}[cnd.op]
+                    if (ka == rkey and kb == akey and op in ("Ge", "Gt", "Eq")) or (kb == rkey and ka == akey and op in ("Le", "Lt", "Eq")):
+                        return True, "split_at(mid) dominated by %s() >= mid on the same slice" % r.mname
+            return False, "split_at(mid) not dominated by a length check on the same slice"
         if n == "std::vec::Vec::drain" and ("RangeFull" in c.full or (len(c.args) > 1 and "RangeFull" in show(strip(self.X.operand(body, c.args[1]))))):
             return True, "drain(..) over the full range never panics"
         if n in ("std::vec::Vec::remove", "std::vec::Vec::swap_remove"):
